@@ -2,7 +2,7 @@
 // xreftable/XRefTable::add_entries_from/newest_wins).
 //
 // Drop into a scratch copy of /repo as  pdf/tests/xreftable_newest_wins.rs  and run
-//   CARGO_TARGET_DIR=/verif/.cache/native-target cargo test --offline -p pdf --test xreftable_newest_wins
+//   CARGO_TARGET_DIR=/tmp/xreftable_target cargo test --offline -p pdf --test xreftable_newest_wins
 // On the pinned tree both tests FAIL (the stale, older entry / value is returned);
 // with findings/stale_direct_entry_overwrites_compressed_fix.diff applied both pass.
 use pdf::file::FileOptions;
